@@ -173,12 +173,29 @@ impl<'a> Hist<'a> {
         let dd = self.cfg.issue_deduplication_window.as_nanos() as u64;
         let is_dup = self.penalties.iter().any(|p| format!("{:?}", p.report) == format!("{rep:?}") && now_ns - p.t_ns < dd);
         let before: Vec<Option<(Option<usize>, Vec<(usize, u32)>)>> = pairs.iter().map(|p| self.view(*p)).collect();
+        let refused_before = self.stack.as_ref().map(|s| s.ul.st.lock().unwrap().failed).unwrap_or(0);
         self.op_report(rep.clone());
         if is_dup {
             // the stack ignores it: it carries no penalty
             self.penalties.pop();
         }
         self.settle_and_check(2000)?;
+        if let (Some(s), Report::FirstHop { .. }) = (&self.stack, &rep) {
+            // stack mode: the failure is learned only if a packet really met the refusing interface
+            let mut st = s.ul.st.lock().unwrap();
+            let happened = st.failed > refused_before;
+            st.fail_first_hop = None;
+            drop(st);
+            if !happened {
+                if !is_dup {
+                    self.penalties.pop();
+                }
+                sim.probe("stack-first-hop-refusal-not-met");
+                return Ok(());
+            }
+            sim.probe("stack-first-hop-refused");
+            sim.fault("first-hop-send-refused");
+        }
         if self.prop != "C07" {
             return Ok(());
         }
@@ -206,7 +223,11 @@ impl<'a> Hist<'a> {
             }
             // "the very next send"
             let n0 = self.handouts.lock().unwrap().len();
-            self.op_try_send(*pair);
+            if self.stack.is_some() {
+                self.op_send(*pair);
+            } else {
+                self.op_try_send(*pair);
+            }
             self.settle_and_check(2000)?;
             let h = self.handouts.lock().unwrap().get(n0).cloned();
             sim.probe("switch-checked");
